@@ -718,14 +718,16 @@ Qed.
 Definition ex_lab : list nat :=
   [0; 0; 0; 0;  0; 1; 1; 0;  1; 1; 1; 1;  0; 0; 0; 0;  0; 0; 0; 0]%nat.
 
-Lemma ex_mask_is_ball : mask_is_ball ex_grid ex_c ex_r (mk_limage (gshape ex_grid) ex_lab).
-Proof.
-  intros idx Hr. apply all_cells_spec in Hr. vm_compute in Hr.
+(* decide  lab <> 0 <-> covered  cell by cell *)
+Ltac mask_enum Hr :=
+  apply all_cells_spec in Hr; vm_compute in Hr;
   repeat (destruct Hr as [<-|Hr];
           [vm_compute; split; intros H; first [reflexivity|discriminate H|exfalso; apply H; reflexivity
-                                                |intros H'; discriminate H']|]).
+                                                |intros H'; discriminate H']|]);
   destruct Hr.
-Qed.
+
+Lemma ex_mask_is_ball : mask_is_ball ex_grid ex_c ex_r (mk_limage (gshape ex_grid) ex_lab).
+Proof. intros idx Hr. mask_enum Hr. Qed.
 
 Example c01_single_nonvacuous :
   let img := mk_limage (gshape ex_grid) ex_lab in
@@ -745,6 +747,98 @@ Proof.
       repeat (destruct Hb as [<-|Hb]); try (destruct Hb); vm_compute; reflexivity.
 Qed.
 
+
+(* (B): two spheres on a line of 10 unit cells, centres 5/2 and 15/2, radii 6/5: three cells each,
+   separated along the only axis by 5 >= 6/5 + 6/5 + 1 *)
+Definition ex2_grid : grid := [ {| ncell := 10; alo := 0; ahi := 10; aper := false |} ].
+Definition ex2_d1 : sphere := ([5 # 2], 6 # 5).
+Definition ex2_d2 : sphere := ([15 # 2], 6 # 5).
+Definition ex2_lab : list nat := [0; 1; 1; 1; 0; 0; 2; 2; 2; 0]%nat.
+
+Example c01_multi_nonvacuous :
+  let g := ex2_grid in let ds := [ex2_d1; ex2_d2] in
+  let img := mk_limage (gshape g) ex2_lab in
+  grid_ok g /\ nonper g /\
+  (forall d, In d ds -> fits g (fst d) (snd d)) /\
+  (forall d, In d ds -> ball_cells g (fst d) (snd d) <> []) /\
+  (forall i j di dj, nth_error ds i = Some di -> nth_error ds j = Some dj -> i <> j -> apart g di dj) /\
+  wf_img g img /\ LabelSpecImg img /\ mask_is_emulsion g ds img.
+Proof.
+  intros g ds img.
+  assert (Hok : grid_ok g) by (apply grid_okb_true; vm_compute; reflexivity).
+  assert (Hnp : nonper g) by (apply nonperb_true; vm_compute; reflexivity).
+  assert (Hfits : forall d, In d ds -> fits g (fst d) (snd d)).
+  { intros d [<-|[<-|[]]]; apply fitsb_true; vm_compute; reflexivity. }
+  assert (Hb1 : ball_cells g (fst ex2_d1) (snd ex2_d1) = [[1]; [2]; [3]]%Z) by (vm_compute; reflexivity).
+  assert (Hb2 : ball_cells g (fst ex2_d2) (snd ex2_d2) = [[6]; [7]; [8]]%Z) by (vm_compute; reflexivity).
+  assert (Hsep : forall i j di dj, nth_error ds i = Some di -> nth_error ds j = Some dj -> i <> j ->
+                   apart g di dj).
+  { assert (Ha : axis_ok {| ncell := 10; alo := 0; ahi := 10; aper := false |})
+      by (split; [reflexivity|reflexivity]).
+    intros i j di dj Hi Hj Hij.
+    destruct i as [|[|i]]; destruct j as [|[|j]]; cbn in Hi, Hj; try congruence;
+      try (destruct i; discriminate Hi); try (destruct j; discriminate Hj);
+      injection Hi as <-; injection Hj as <-.
+    - apply (apart_of_axis g ex2_d1 ex2_d2 0 _ (5 # 2) (15 # 2) eq_refl eq_refl Ha eq_refl eq_refl).
+      apply Qle_bool_iff. vm_compute. reflexivity.
+    - apply (apart_of_axis g ex2_d2 ex2_d1 0 _ (15 # 2) (5 # 2) eq_refl eq_refl Ha eq_refl eq_refl).
+      apply Qle_bool_iff. vm_compute. reflexivity. }
+  assert (Hwf : wf_img g img) by (apply wf_imgb_true; vm_compute; reflexivity).
+  assert (Hmask : mask_is_emulsion g ds img) by (intros idx Hr; mask_enum Hr).
+  split; [exact Hok|]. split; [exact Hnp|]. split; [exact Hfits|].
+  split; [intros d [<-|[<-|[]]]; [rewrite Hb1|rewrite Hb2]; discriminate|].
+  split; [exact Hsep|]. split; [exact Hwf|]. split; [|exact Hmask].
+  assert (Hm : mask_cells img = [[1]; [2]; [3]; [6]; [7]; [8]]%Z) by (vm_compute; reflexivity).
+  assert (Hs1 : forall p q, In p [[1]; [2]; [3]]%Z -> In q [[1]; [2]; [3]]%Z -> box_conn img p q).
+  { intros p q Hp Hq. apply (same_conn g ds img Hok Hnp Hfits Hwf Hmask).
+    exists 0%nat, ex2_d1. split; [reflexivity|]. unfold in_ball. rewrite Hb1. split; assumption. }
+  assert (Hs2 : forall p q, In p [[6]; [7]; [8]]%Z -> In q [[6]; [7]; [8]]%Z -> box_conn img p q).
+  { intros p q Hp Hq. apply (same_conn g ds img Hok Hnp Hfits Hwf Hmask).
+    exists 1%nat, ex2_d2. split; [reflexivity|]. unfold in_ball. rewrite Hb2. split; assumption. }
+  intros a b Ha Hb. split.
+  - intros E. rewrite Hm in Ha, Hb. cbn [In] in Ha, Hb.
+    repeat (destruct Ha as [<-|Ha]); try (destruct Ha);
+      repeat (destruct Hb as [<-|Hb]); try (destruct Hb);
+      first [ exfalso; vm_compute in E; discriminate E
+            | apply Hs1; cbn [In]; tauto
+            | apply Hs2; cbn [In]; tauto ].
+  - intros Hc. destruct (conn_same g ds img Hsep Hwf Hmask a b Hc) as [<-|(i & d & Hd & Hp & Hq)];
+      [reflexivity|].
+    destruct i as [|[|i]]; cbn in Hd; [| |destruct i; discriminate Hd]; injection Hd as <-;
+      unfold in_ball in Hp, Hq; [rewrite Hb1 in Hp, Hq|rewrite Hb2 in Hp, Hq]; cbn [In] in Hp, Hq;
+      repeat (destruct Hp as [<-|Hp]); try (destruct Hp);
+      repeat (destruct Hq as [<-|Hq]); try (destruct Hq); vm_compute; reflexivity.
+Qed.
+
+(* (C): six unit cells on a periodic line, centre 1/5, radius 6/5: the sphere covers cell 0 and, across
+   the boundary, cell 5; the labelling sees two pieces *)
+Definition ex3_grid : grid := [ {| ncell := 6; alo := 0; ahi := 6; aper := true |} ].
+Definition ex3_lab : list nat := [1; 0; 0; 0; 0; 2]%nat.
+
+Example c01_periodic_nonvacuous :
+  let g := ex3_grid in let c := [1 # 5] in let r := 6 # 5 in
+  let img := mk_limage (gshape g) ex3_lab in
+  grid_ok g /\ tfits g c r /\ ball_cells g c r = [[0]; [5]]%Z /\
+  wf_img g img /\ LabelSpecImg img /\ mask_is_ball g c r img /\ num_labels img = 2%nat.
+Proof.
+  intros g c r img.
+  split; [apply grid_okb_true; vm_compute; reflexivity|].
+  split; [constructor; [|constructor]; unfold tfits1; cbn [aper]; apply Qle_bool_iff; vm_compute; reflexivity|].
+  split; [vm_compute; reflexivity|].
+  split; [apply wf_imgb_true; vm_compute; reflexivity|].
+  split; [|split; [intros idx Hr; mask_enum Hr|vm_compute; reflexivity]].
+  assert (Hm : mask_cells img = [[0]; [5]]%Z) by (vm_compute; reflexivity).
+  assert (Hno : forall x y, ~ step0 cell (mask_cells img) face_adj x y).
+  { intros x y (Hx & Hy & Hf). rewrite Hm in Hx, Hy.
+    destruct Hx as [<-|[<-|[]]]; destruct Hy as [<-|[<-|[]]];
+      inversion Hf as [x' y' c' Hd|x' c' d' Hf']; subst; try lia; inversion Hf'. }
+  intros a b Ha Hb. split.
+  - intros E. rewrite Hm in Ha, Hb.
+    destruct Ha as [<-|[<-|[]]]; destruct Hb as [<-|[<-|[]]]; try apply cr_refl;
+      vm_compute in E; discriminate E.
+  - intros H. apply (clos_empty _ a b Hno) in H. congruence.
+Qed.
+
 Print Assumptions c01_single.
 Print Assumptions c01_multi_components.
 Print Assumptions c01_multi_labels.
@@ -754,3 +848,5 @@ Print Assumptions c01_multi_euclid.
 Print Assumptions c01_multi_no_removal.
 Print Assumptions c01_periodic_single_partial.
 Print Assumptions c01_single_nonvacuous.
+Print Assumptions c01_multi_nonvacuous.
+Print Assumptions c01_periodic_nonvacuous.
